@@ -42,8 +42,20 @@ def singular_exprs(g: gen.Gen, r):
     x = g.view()
     a = g.pool.scalars[0]
     ops = ["abs", "sqrt", "log", "tan", "exp", "sinh", "cosh", "sin", "cos", "tanh"]
-    k = r.randrange(12)
+    k = r.randrange(19)
     b = g.pool.scalars[1]
+    if k >= 12:
+        # a REDUCTION that vanishes at the origin (or where the vector equals a constant), nested inside a function that is singular
+        # there: log(||x||), sum(x**2) ** -1, 1 / sum(sin x), sqrt(x'Qx), log(sum of a vector expression) ...
+        from optyx.core.matrices import quadratic_form
+        sh = r.choice([0.0, 0.0, 1.0])
+        w = x if sh == 0.0 else x - sh
+        inner = r.choice([lambda: vnorm(w), lambda: vnorm(w, 1), lambda: (x ** 2).sum() if sh == 0.0 else ((x - sh) ** 2).sum(),
+                          lambda: x.dot(x), lambda: gen.FN["sin"](x).sum(), lambda: quadratic_form(x, np.eye(x.size) * 2.0),
+                          lambda: (x * x).sum(), lambda: gen.FN["abs"](x).sum(), lambda: (x ** 4).sum()])()
+        outer = r.choice([lambda f: gen.FN["log"](f), lambda f: f ** 0.5, lambda f: f ** -1, lambda f: 1 / f, lambda f: gen.FN["sqrt"](f),
+                          lambda f: f ** 1.5, lambda f: gen.FN["log"](f + 0.0) * 2, lambda f: 3 / f + f])
+        return outer(inner) + (a if k % 2 else 0)
     if k == 9:
         # singular MIXED partials: d2/da db is singular on a = 0 while the diagonal in b is regular
         return gen.FN[r.choice(["sqrt", "log", "abs"])](a) * b + 3 * a * b + b ** 2
@@ -176,10 +188,12 @@ def run(rep: vk.Report):
                 continue
         for nm in (gf.__name__, jf.__name__, hf.__name__):
             paths[nm] = paths.get(nm, 0) + 1
-        for trial in range(4):
+        for trial in range(6):
             huge = trial == 3
             pool = HUGE if huge else SING
             pt = {nm: r.choice(pool) for nm in names}
+            if trial >= 4:
+                pt = {nm: (0.0 if trial == 4 else 1.0) for nm in names}        # the whole point at the origin / at ones: reductions vanish there
             x = np.array([pt[nm] for nm in names], dtype=float)
             with np.errstate(all="ignore"), warnings.catch_warnings():
                 warnings.simplefilter("ignore")
@@ -200,6 +214,25 @@ def run(rep: vk.Report):
                                    "point": pt, "error": repr(ex)[:300]}, concrete=True)
                     continue
             stacked += 1
+            if trial == 0:
+                # call history: the Jacobian handed out for a regular point is still that matrix after the same callable has been
+                # evaluated ON the singular set (the sanitiser may hand its argument back unchanged: it must not be a shared buffer)
+                reg = np.array([0.75 + 0.25 * k_ for k_ in range(len(names))])
+                for nm_f, f_, mk_ in (("compile_jacobian", jf, lambda: AD.compile_jacobian([e], V)), ("stacked Jacobian", jstack, None),
+                                      ("compile_gradient", gf, lambda: C.compile_gradient(e, V)), ("compile_hessian", hf, lambda: AD.compile_hessian(e, V))):
+                    try:
+                        f_ref = mk_() if mk_ is not None else f_
+                        bad_ = common.alias_probe(f_, reg, x, (lambda a_, f_ref=f_ref: f_ref(a_)), rtol=0.0) if mk_ is not None else None
+                        if mk_ is None:
+                            first = f_(reg.copy()); kept = np.array(first, dtype=float, copy=True); f_(x.copy())
+                            bad_ = None if np.array_equal(np.asarray(first, dtype=float), kept, equal_nan=True) else {
+                                "what": "a result handed out earlier changed when the callable was called again (shared output buffer)",
+                                "first_result_then": kept.tolist(), "first_result_now": np.asarray(first, dtype=float).tolist()}
+                        if bad_:
+                            rep.violation({"kind": "history", "obligation": "a derivative array handed out earlier is not overwritten by a later call",
+                                           "witness": dict(bad_, expr=repr(e)[:300], V=names, callable=nm_f)}, concrete=True)
+                    except Exception:
+                        pass
             for k_, nm_ in enumerate(layout):
                 if nm_ != "e":
                     continue
